@@ -136,7 +136,7 @@ pub fn dispatch(op: &str, req: &Value) -> Option<String> {
             }
             o.push_str("],\"find_newline\":");
             match find_newline(text) {
-                Some((p, le)) => o.push_str(&format!("[{},{},{}]", p, jstr(le.as_str()), le.len())),
+                Some((p, le)) => o.push_str(&format!("[{},{},{},{},{}]", p, jstr(le.as_str()), le.len(), u32::from(le.text_len()), jstr(&le))),
                 None => o.push_str("null"),
             }
             o.push('}');
